@@ -802,6 +802,54 @@ func ruleC03Pool(r *Run) {
 		}
 	}
 	r.Check(rule, "rux.New:ctxPool.New", newFn.Pos(), okNew, "the pool constructor returns a freshly allocated *Context")
+	// ... and every reference-typed field of the new context is its own: a constructor that fills the object by copying
+	// a prototype value shares the prototype's slices and maps (their headers are copied, not their backing arrays)
+	// between all contexts of the pool
+	for _, a := range ctors {
+		eachInstr(a, func(in ssa.Instruction) {
+			st, ok := in.(*ssa.Store)
+			if !ok {
+				return
+			}
+			al, isAl := st.Addr.(*ssa.Alloc)
+			if !isAl || !types.Identical(al.Type().(*types.Pointer).Elem(), w.Named("rux", "Context")) {
+				return
+			}
+			ld, isLd := st.Val.(*ssa.UnOp)
+			if !isLd || ld.Op != token.MUL {
+				return
+			}
+			// the prototype: a captured / package-level Context value; which of its fields hold allocated memory?
+			var proto ssa.Value = ld.X
+			if fv, isFV := proto.(*ssa.FreeVar); isFV {
+				if b := freeVarBinding(fv); b != nil {
+					proto = b
+				}
+			}
+			shared := ""
+			if pa, isPA := proto.(*ssa.Alloc); isPA {
+				for _, ref := range *pa.Referrers() {
+					fa, isFA := ref.(*ssa.FieldAddr)
+					if !isFA {
+						continue
+					}
+					for _, r2 := range *fa.Referrers() {
+						s2, isSt := r2.(*ssa.Store)
+						if !isSt || s2.Addr != ssa.Value(fa) {
+							continue
+						}
+						switch s2.Val.(type) {
+						case *ssa.MakeSlice, *ssa.MakeMap, *ssa.MakeChan, *ssa.Slice:
+							shared = fieldName(fa.X.Type(), fa.Field)
+						}
+					}
+				}
+			} else {
+				shared = "(prototype " + shortCanon(canon(proto)) + ")"
+			}
+			r.Check(rule, FuncName(a)+":prototype copy", w.InstrPos(in), shared == "", map[bool]string{true: "the copied prototype holds no allocated slice / map: nothing is shared between the pooled contexts", false: "the pool constructor copies a prototype Context whose field " + shared + " holds allocated memory: the copy shares its backing array with every other context of the pool (Reset only re-slices it), so what one request appends — a recorded error — overwrites what a concurrent request recorded"}[shared == ""])
+		})
+	}
 	// every other sync.Pool of the module: a pooled object must be re-initialised before it is used again
 	genericPools(r, rule, poolF)
 	poolOwnership(r, rule, poolF)
